@@ -293,6 +293,45 @@ Example C06_ex_ignore :
      RIgnoredWriteError 1%N).
 Proof. vm_compute. reflexivity. Qed.
 
+(* "the driver sends exactly the attempts the policy decided", with the recorded decisions: the
+   trace walks the plan -- after RetrySameTarget the same target, after RetryNextTarget or a failed
+   connection acquisition the successor in the plan, after a success / DontRetry / IgnoreWriteError
+   nothing -- and the result is the one the end of the trace prescribes ([follow], Model/Fiber.v) *)
+Theorem C06_followed : forall p idem cl0 plan outs tr r,
+  fiber p idem cl0 plan outs = (tr, r) -> follow plan None tr = Some r.
+Proof. exact fiber_followed. Qed.
+
+Theorem C06_next_target : forall p idem cl0 plan outs tr r,
+  fiber p idem cl0 plan outs = (tr, r) ->
+  forall pre t c e nc ev post, tr = pre ++ EvAttempt t c (AErr e (RetryNextTarget nc)) :: ev :: post ->
+  exists p1 p2, plan = p1 ++ t :: ev_target ev :: p2.
+Proof. exact fiber_next_target. Qed.
+
+(* the predicate the driver evaluates on a differing trace of the real loop (safe resend, serial,
+   bound, decisions followed, result) holds of every model run *)
+Theorem C06_trace_prop_full : forall p idem cl0 plan outs tr r,
+  fiber p idem cl0 plan outs = (tr, r) -> prop_trace_full p idem plan tr r = true.
+Proof. exact fiber_trace_prop_full. Qed.
+
+(* the predicate rejects: RetryNextTarget followed by the same target; DontRetry followed by a
+   success; a success reported after DontRetry; a result that is not the last decision's *)
+Example C06_ex_followed :
+  followed_ok [0; 1]%N [EvAttempt 0%N CQuorum (AErr ex_unavail (RetryNextTarget None)); EvAttempt 0%N CQuorum AOk]
+              (RCompleted 0%N) = false /\
+  followed_ok [0; 1]%N [EvAttempt 0%N CQuorum (AErr ex_unavail (RetryNextTarget None)); EvAttempt 1%N CQuorum AOk]
+              (RCompleted 1%N) = true /\
+  followed_ok [0; 1]%N [EvAttempt 0%N CQuorum (AErr (EDbError DbOverloaded) DontRetry); EvAttempt 1%N CQuorum AOk]
+              (RCompleted 1%N) = false /\
+  followed_ok [0; 1]%N [EvAttempt 0%N CQuorum (AErr (EDbError DbOverloaded) DontRetry)] (RCompleted 0%N) = false /\
+  followed_ok [0; 1]%N [EvAttempt 0%N CQuorum (AErr (EDbError DbOverloaded) DontRetry)]
+              (RFailed (LAttempt (EDbError DbOverloaded))) = true /\
+  followed_ok [0; 1]%N [EvAttempt 0%N CQuorum (AErr ex_unavail (RetrySameTarget None)); EvAttempt 1%N CQuorum AOk]
+              (RCompleted 1%N) = false /\
+  followed_ok [0; 1]%N [EvConnFail 0%N; EvConnFail 1%N] (RFailed LConn) = true /\
+  followed_ok [0; 1]%N [EvConnFail 0%N] (RFailed LConn) = false /\
+  prop_trace_ok PDefault false 2 [EvAttempt 0%N CQuorum (AErr (EDbError DbOverloaded) DontRetry); EvAttempt 1%N CQuorum AOk] = false.
+Proof. vm_compute. repeat split; reflexivity. Qed.
+
 (* ---- end to end: a real Session against a mock cluster (Model/E2EAttempts.v) ------------------
    [frs]: the QUERY / EXECUTE / BATCH frames of ONE logical request (one page) as the mock
    received them, in arrival order, each with node, consistency, arrival instant, the answer the
@@ -396,6 +435,29 @@ Theorem C06_e2e_prop_frames : forall p idem spec cl0 nodes down c frs tret o co,
   prop_frames p idem spec (List.length nodes) frs = true.
 Proof. exact single_prop_frames. Qed.
 
+(* ... for both positions of the gate *)
+Theorem C06_e2e_prop_frames_any : forall p idem spec cl0 nodes down cs assign frs tret o co,
+  e2e_check p idem spec cl0 nodes down cs assign frs tret o co = true ->
+  prop_frames p idem spec (List.length nodes) frs = true.
+Proof. exact e2e_prop_frames. Qed.
+
+(* "For ANY request the number of attempts is bounded", on the wire and for the WHOLE request: one
+   fiber: |nodes| + k frames; with a speculative policy every fiber has its own retry session, the
+   fibers share the plan: |nodes| + (1 + max) * k; Fallthrough: one frame per fiber. *)
+Theorem C06_e2e_request_bound : forall p idem spec cl0 nodes down cs assign frs tret o co,
+  e2e_check p idem spec cl0 nodes down cs assign frs tret o co = true ->
+  (List.length frs
+   <= frame_bound p (match gate_open idem spec with Some max => 1 + max | None => 1 end)
+                  (List.length nodes))%nat.
+Proof. exact e2e_request_bound. Qed.
+
+(* one fiber: a frame is followed by another only if the retry session, fed the answered errors in
+   order, decided a retry there -- "no more attempts than the policy decided" on the wire *)
+Theorem C06_e2e_no_more : forall p idem cl0 nodes down c frs tret o co,
+  check_single p idem cl0 nodes down c frs tret o co = true ->
+  frames_follow idem (new_session p) frs = true.
+Proof. exact single_no_more. Qed.
+
 (* non-vacuity.  Not idempotent, Default, 3 nodes: Unavailable on node 2 (answered at 20), then
    success on node 0 -- accepted; the same frames with the second one arriving BEFORE the first
    was answered (a second node contacted without any failure: what a speculative execution of a
@@ -450,6 +512,40 @@ Print Assumptions C06_ignore_only_idempotent.
 Print Assumptions C06_decide_prop_ok.
 Print Assumptions C06_history_prop_ok.
 Print Assumptions C06_trace_prop_ok.
+(* the e2e property predicate on rejecting inputs: Fallthrough followed by a second frame (no
+   overlap, safe error); a non-idempotent request re-sent after Overloaded; too many frames; and the
+   UNPREPARED + re-execute pair on one node, which is ONE attempt and is not judged *)
+Example C06_ex_prop_frames :
+  prop_frames PFallthrough false None 3 [ex_f1 20; ex_f2] = false /\
+  prop_frames PDefault false None 3 [ex_f1 20; ex_f2] = true /\
+  prop_frames PDefault false None 3 [mkFrame 2 CQuorum 10 (AnsErr (EDbError DbOverloaded)) 20; ex_f2] = false /\
+  prop_frames PDefault true None 3 [mkFrame 2 CQuorum 10 (AnsErr (EDbError DbOverloaded)) 20; ex_f2] = true /\
+  prop_frames PDefault true None 3 [mkFrame 2 CSerial 10 (AnsErr ex_unavail) 20; mkFrame 0 CSerial 40 AnsOk 45] = false /\
+  prop_frames PFallthrough true (Some 1%nat) 3 [ex_f1 20; ex_f2; mkFrame 1 CQuorum 60 AnsOk 70] = false /\
+  prop_frames PFallthrough true (Some 2%nat) 3 [ex_f1 20; ex_f2; mkFrame 1 CQuorum 60 AnsOk 70] = true /\
+  frame_bound PDefault 3 4 = 10%nat /\ frame_bound PDowngrading 1 3 = 4%nat /\ frame_bound PFallthrough 3 4 = 3%nat /\
+  prop_frames PDefault false None 3
+    [mkFrame 2 CQuorum 10 (AnsErr (EDbError DbUnprepared)) 20; mkFrame 2 CQuorum 30 AnsOk 40] = true /\
+  prop_frames PDefault false None 3
+    [mkFrame 2 CQuorum 10 (AnsErr (EDbError DbUnprepared)) 20; mkFrame 0 CQuorum 30 AnsOk 40] = false.
+Proof. vm_compute. repeat split; reflexivity. Qed.
+
+(* the per-decision predicate of the driver on rejecting inputs *)
+Example C06_ex_prop_decision :
+  prop_decision_ok PDowngrading (mk_ri (EDbError (DbWriteTimeout 1 2 WSimple)) false CQuorum) IgnoreWriteError = false /\
+  prop_decision_ok PDowngrading (mk_ri (EDbError (DbWriteTimeout 1 2 WSimple)) true CQuorum) IgnoreWriteError = true /\
+  prop_decision_ok PDefault (mk_ri (EDbError DbOverloaded) false CQuorum) (RetryNextTarget None) = false /\
+  prop_decision_ok PDefault (mk_ri ex_unavail true CSerial) (RetryNextTarget None) = false /\
+  prop_decision_ok PFallthrough (mk_ri ex_unavail true CQuorum) (RetryNextTarget None) = false /\
+  prop_decision_ok PDefault (mk_ri ex_unavail false CQuorum) (RetryNextTarget None) = true.
+Proof. vm_compute. repeat split; reflexivity. Qed.
+
+Print Assumptions C06_followed.
+Print Assumptions C06_next_target.
+Print Assumptions C06_trace_prop_full.
+Print Assumptions C06_e2e_prop_frames_any.
+Print Assumptions C06_e2e_request_bound.
+Print Assumptions C06_e2e_no_more.
 Print Assumptions C06_e2e_run.
 Print Assumptions C06_e2e_resend.
 Print Assumptions C06_e2e_unsafe_final.
